@@ -35,8 +35,7 @@ PROPS = {
         'run_vo': 'Dedup/Run.vo', 'props_vo': 'Properties/C05.vo', 'level': 'proof',
         'classes': {1: 'handler-re-executed-for-duplicate', 2: 'duplicate-not-answered-with-first-reply', 3: 'not-fresh-after-lifetime'},
         'trusted': ['hook udp/client/export_verif.go (response-cache deadline shifting, own message-ID view)',
-                    'in-memory udp/client.Session + barrier request used to wait for dispatch (harness/udpmem.go)',
-                    'application-supplied response cache of the concurrent-store families (harness/c05.go c05YieldCache: the connection\'s in-memory cache re-implemented over pkg/cache, first Store returns on a lock-count / lookup witness)'],
+                    'in-memory udp/client.Session + barrier request used to wait for dispatch (harness/udpmem.go)'],
         'assumptions': ['one handleReq execution is atomic per message ID (msgIDMutex); time is modelled as validity left per cache entry, shifted by the harness instead of waiting 247 s'],
         'level_text': 'Coq theorems (Properties/C05.v) over ALL event histories of the request-path model of udp/client.Conn: a cacheable request seen again within the lifetime never reaches the handler and is answered with the stored reply retargeted to the duplicate; after the lifetime it is fresh. Model tied to the real Conn by event-by-event correspondence over an in-memory session.',
         'level_note': 'Trusted: Coq kernel + vm_compute, harness, verif hook; atomicity of one per-MID critical section rests on sync.Mutex; real 247 s waits replaced by deadline shifting.',
